@@ -197,6 +197,11 @@ Theorem select_arm_panics : exists s', reachable v_take_drop_wake (initial true 
 Proof. apply (some_path_to_sound _ _ depth_bound). vm_compute. reflexivity. Qed.
 
 (* a handler registered before the blocking accept does not help on its own: the signal is only seen after accept returns *)
+Theorem register_first_not_enough :
+  inev v_register_first hung depth_bound (initial false MachNone [LspShutdown; LspExit]) /\
+  inev v_register_first hung depth_bound (initial false MachNone [LspClose]).
+Proof. split; apply all_paths_to_sound; vm_compute; reflexivity. Qed.
+
 Theorem spec_exit_code_examples :
   spec_exit_code [LspShutdown; LspExit] = 0 /\ spec_exit_code [LspClose] = 0 /\ spec_exit_code [DapDisconnect; LspShutdown; LspExit] = 0 /\
   spec_exit_code [LspShutdown; DapDisconnect; LspExit] = 0 /\ spec_exit_code [LspShutdown; LspClose] = 1 /\ spec_exit_code [LspShutdown] = 1.
